@@ -726,9 +726,14 @@ func TestC13(t *testing.T) {
 		}
 	}
 	// length 2: every pair over (target, shape) for EVERY kind set
+	// (quick: every pair once, with the kind set chosen by the pair and the seed - 2916 cases instead of 8748, so that the
+	// quick check stays well under 90 s on a busy machine; thorough: every pair for EVERY kind set)
 	for a := 0; a < 3*nShapes; a++ {
 		for b := 0; b < 3*nShapes; b++ {
 			for ki, kinds := range kindSets {
+				if !thorough() && int((int64(a*31+b*17)+*flagSeed)%3) != ki {
+					continue
+				}
 				run(kinds, [][2]int{{a / nShapes, a % nShapes}, {b / nShapes, b % nShapes}}, []string{kn[ki], "exhaustive"})
 			}
 		}
